@@ -107,12 +107,17 @@ def handle (j : Json) : Except String Json := do
   | "py_roundtrip" =>
     -- serialize_to_python -> Python's parse -> evaluation, for one value
     let v ← Codec.vOf (← j.getObjVal? "value")
-    let tj ← (← j.getObjVal? "separators").getArr?
-    let table : List (String × String) ← tj.toList.mapM (fun p => do
-      let q ← p.getArr?
-      match q.toList with
-      | [a, b] => do pure (← a.getStr?, ← b.getStr?)
-      | _ => throw "bad separator entry")
+    let pairs := fun (key : String) => do
+      let tj ← (← j.getObjVal? key).getArr?
+      tj.toList.mapM (fun p => do
+        let q ← p.getArr?
+        match q.toList with
+        | [a, b] => do pure ((← a.getStr?, ← b.getStr?) : String × String)
+        | _ => throw "bad table entry")
+    let table : Ser.PyCfg := {
+      seps := ← pairs "separators", singleChildFull := ← j.getObjValAs? Bool "single_child_full",
+      combOps := ← pairs "comb_operators", combMethods := ← pairs "comb_methods",
+      combParens := ← j.getObjValAs? Bool "comb_parens" }
     let perr := fun (e : Ser.PErr) => match e with
       | .keyError k => Json.mkObj [("err", "KeyError"), ("what", k)]
       | .typeError w => Json.mkObj [("err", "TypeError"), ("what", w)]
